@@ -501,12 +501,15 @@ let run_eval (args : sx list) : sx =
       (try
          let fi = compound_finditer e re_full_oracle re_search_oracle q d c in
          let fa = compound_findall e re_full_oracle re_search_oracle q d c in
-         let spec =
-           match q.q_rest with
-           | [] when not q.q_first.p_fake -> L [A "nodes"; L (List.map sx_node (nodelist re_full_oracle re_search_oracle q.q_first.p_segs d))]
-           | _ -> A "na" in
+         let spec = L [A "nodes"; L (List.map sx_node (query_nodes re_full_oracle re_search_oracle e.e_keys q d c))] in
+         let afi = compound_finditer_async e re_full_oracle re_search_oracle q d c in
+         let afa = compound_findall_async e re_full_oracle re_search_oracle q d c in
          L [A "ok"; sx_result (fun ms -> L (List.map sx_jmatch ms)) fi;
-            sx_result (fun vs -> L (List.map sx_json vs)) fa; spec; L [A "wf"; sx_bool (wf_json d)]]
+            sx_result (fun vs -> L (List.map sx_json vs)) fa; spec;
+            L [A "wf"; sx_bool (wf_json d && wf_json c)];
+            sx_result (fun ms -> L (List.map sx_jmatch ms)) afi;
+            sx_result (fun vs -> L (List.map sx_json vs)) afa;
+            L [A "std"; sx_bool (std_query q)]; L [A "ext"; sx_bool (ext_query q)]]
        with Unsupported_case w -> L [A "unsupported"; A w])
   | _ -> failwith "eval: bad args"
 
